@@ -38,6 +38,9 @@ def mixer(l, Cm):
 
 def gen_random(rng, N):
     Fmax = O.loguniform(rng, 0.1, 100, N)
+    # "all positive constants": a few percent of very small and very large force limits (micro-thrusters .. launchers)
+    ex = rng.random(N)
+    Fmax = np.where(ex < 0.04, O.loguniform(rng, 1e-7, 1e-2, N), np.where(ex > 0.97, O.loguniform(rng, 1e2, 1e6, N), Fmax))
     l = O.loguniform(rng, 0.05, 2, N)
     Cm = O.loguniform(rng, 1e-3, 1, N)
     Ct = O.loguniform(rng, 1e-7, 1e-3, N)
